@@ -100,7 +100,12 @@ impl AsyncFileSystem for AsyncPhysicalFS {
     }
 
     async fn open_file(&self, path: &str) -> VfsResult<Box<dyn SeekAndRead + Send + Unpin>> {
-        Ok(Box::new(File::open(self.get_path(path)).await?))
+        let file = File::open(self.get_path(path)).await?;
+        if file.metadata().await?.is_dir() {
+            // opening a directory succeeds on some platforms and only fails on the first read
+            return Err(VfsErrorKind::Other("Not a file".into()).into());
+        }
+        Ok(Box::new(file))
     }
 
     async fn create_file(&self, path: &str) -> VfsResult<Box<dyn Write + Send + Unpin>> {
